@@ -1225,12 +1225,17 @@ macro_rules! tstubs {
         #[kani::stub(alloc::collections::BTreeMap::remove, crate::models::btmap::Bt::remove)]
         #[kani::stub(alloc::collections::BTreeMap::get, crate::models::btmap::Bt::get)]
         #[kani::stub(alloc::collections::BTreeMap::len, crate::models::btmap::bt_len)]
+        #[kani::stub(alloc::collections::BTreeMap::is_empty, crate::models::btmap::bt_is_empty)]
+        #[kani::stub(alloc::collections::BTreeMap::get_mut, crate::models::btmap::Bt::get_mut)]
+        #[kani::stub(alloc::collections::BTreeMap::contains_key, crate::models::btmap::Bt::contains_key)]
         fn $name() $body
     };
 }
 
 #[cfg(feature = "fs_core")]
-fn secret_tree_first_use_case(leaf_node: u32, app: bool) {
+fn secret_tree_first_use_case(leaf_node: u32, app: bool) { secret_tree_first_use_case_(leaf_node, app, true) }
+#[cfg(feature = "fs_core")]
+fn secret_tree_first_use_case_(leaf_node: u32, app: bool, more: bool) {
     use mls_rs::verif::MlsError;
     let mut log = Log::new(12);
     let uf = Uf::new(&mut log);
@@ -1262,6 +1267,7 @@ fn secret_tree_first_use_case(leaf_node: u32, app: bool) {
             assert!(secret_tree_root_secret(&t).is_none(), "the consumed root secret is still stored");
             assert!(secret_tree_len(&t) == 2);
             forget(k);
+            if !more { forget(t); forget(log); kani::cover!(true); return; }
             // single use
             match t.message_key_generation(&uf, leaf_node, kt, 0) {
                 Ok(k2) => { forget(k2); assert!(false, "the same generation was handed out twice"); }
@@ -1294,3 +1300,7 @@ fn secret_tree_first_use_case(leaf_node: u32, app: bool) {
 tstubs! { #[kani::unwind(14)] fn c13_secret_tree_first_use_leaf0_app() { secret_tree_first_use_case(0, true); } }
 #[cfg(feature = "fs_core")]
 tstubs! { #[kani::unwind(14)] fn c13_secret_tree_first_use_leaf1_hs() { secret_tree_first_use_case(2, false); } }
+#[cfg(feature = "fs_core")]
+tstubs! { #[kani::unwind(14)] fn c13_secret_tree_first_key_leaf0_app() { secret_tree_first_use_case_(0, true, false); } }
+#[cfg(feature = "fs_core")]
+tstubs! { #[kani::unwind(14)] fn c13_secret_tree_first_key_leaf1_hs() { secret_tree_first_use_case_(2, false, false); } }
